@@ -1698,14 +1698,16 @@ DOMNode* DOMRangeImpl::traverseTextNode( DOMNode*n, bool isLeft, int how )
             newNode->setNodeValue(XMLUni::fgZeroLenString);
         }
         else {
+            // the buffer has to hold the text from offset to the end
+            const XMLSize_t count = startLen - offset;
             XMLCh* newNodeValue;
             XMLCh newTemp[4000];
 
-            if (offset >= 3999)  {
+            if (count >= 3999)  {
                 newNodeValue = (XMLCh*) fMemoryManager->allocate
                 (
-                    (offset+1) * sizeof(XMLCh)
-                );//new XMLCh[offset+1];
+                    (count+1) * sizeof(XMLCh)
+                );//new XMLCh[count+1];
             }
             else {
                 newNodeValue = newTemp;
@@ -1713,7 +1715,7 @@ DOMNode* DOMRangeImpl::traverseTextNode( DOMNode*n, bool isLeft, int how )
             XMLString::subString(newNodeValue, txtValue, offset, startLen, ((DOMDocumentImpl *)fDocument)->getMemoryManager());
             newNode->setNodeValue( ((DOMDocumentImpl *)fDocument)->getPooledString(newNodeValue) );
 
-            if (offset>= 3999)
+            if (count >= 3999)
                 fMemoryManager->deallocate(newNodeValue);//delete[] newNodeValue;
 
         }
